@@ -92,7 +92,10 @@ def chk_field(case, note):
             mb = D.place(mb, sb, sb, case["status"])
         if sg is not None:
             mb = D.place(mb, sg, sg, case["sign"])
-        msg = frames.tohex(frames.commb(df, addr, mb, head), 112, hc)
+        v = frames.commb(df, addr, mb, head)
+        if (mb0 ^ head) & 7 == 0 and hc != "M":   # the address chosen so that the six AP digits are the same as six digits inside MB
+            v = frames.commb_ap_repeats(df, mb, head, 8 + (head >> 3) % 9)[1]
+        msg = frames.tohex(v, 112, hc)
         for fname, fn in fn_pair(row):
             r = call(fn, msg)
             if r[0] != "ok":
